@@ -22,7 +22,7 @@ from ..codegen import (
     generate_return,
 )
 from ..plugins.manager import PluginManager
-from ..utils import str_to_snake_case
+from ..utils import process_name
 from .arguments import ArgumentsGenerator
 from .constants import (
     ANY,
@@ -140,7 +140,7 @@ class CustomOperationGenerator:
             )
 
         return generate_method_definition(
-            name=str_to_snake_case(operation_name),
+            name=process_name(operation_name, convert_to_snake_case=True),
             arguments=method_arguments,
             return_type=generate_name(return_type_name),
             body=[
